@@ -464,6 +464,8 @@ def main(argv):
     if not prop_fails and (corr_breaks or broken):
         # search: more seeds, larger budget, enumerators
         log(f"search: {len(corr_breaks)} correspondence breaks, {len(broken)} broken obligations; looking for a failing input")
+        for cb in corr_breaks[:3]:
+            log("  correspondence break:", cb[0][:300], "\n    impl :", cb[1][:600], "\n    model:", cb[2][:600])
         for k in range(1, 5):
             try:
                 ops = gen_ops(pid, a.seed * 31 + 1000 + k, max(n, 20000), k == 1)
